@@ -13,6 +13,8 @@ Oracles
                         exactly one callback (RETRY: True); BEST_EFFORT only needs >= 1
   datagram-accounting   at every tick: assembled == acked + timeouts + len(pending_acks)
 """
+import struct
+
 from mc import core, explore
 from mc.world import World, Monitor
 from mc.pair import DeliveryMonitor, app_send, payload, quiescent
@@ -30,6 +32,33 @@ class CallbackMonitor(DeliveryMonitor):
     def __init__(self):
         DeliveryMonitor.__init__(self, flag_delivery=False)
         self.sends = {}  # tag -> (sender, data, retry, time)
+        self.carried = {}   # tag -> (id(conn), datagram seq, time handed to the socket)   [unretried single-datagram sends]
+        self.ack_seen = {}  # tag -> time at which the sender ACCEPTED a peer datagram whose ack fields name that datagram
+
+    def on_send(self, w, d):
+        DeliveryMonitor.on_send(self, w, d)
+        if d.src == "x" or len(d.data) < 20:
+            return
+        conn = w.server_conn(0) if d.src == "s" else w.clients[0].conn
+        if conn is None:
+            return
+        seq = struct.unpack(">H", d.data[8:10])[0]
+        for cb in conn.pending_callbacks.get(seq, []) or []:
+            tag = getattr(cb, "tag", None)
+            if tag is not None and tag not in self.carried:
+                self.carried[tag] = (id(conn), seq, w.vt.now)
+
+    def on_recv_result(self, w, conn, hdr, datagram, result, before):
+        DeliveryMonitor.on_recv_result(self, w, conn, hdr, datagram, result, before)
+        if result is False or result is None:
+            return
+        ack, bits = int(hdr.ack), int(hdr.ack_bits)
+        for tag, (cid, seq, t) in self.carried.items():
+            if cid != id(conn) or tag in self.ack_seen:
+                continue
+            diff = (ack - seq) % 65535   # both on the ring 1..65535
+            if diff == 0 or (1 <= diff <= 32 and bits & (0x80000000 >> (diff - 1))):
+                self.ack_seen[tag] = w.vt.now
 
     def on_callback(self, w, end, tag, success):
         DeliveryMonitor.on_callback(self, w, end, tag, success)
@@ -40,6 +69,10 @@ class CallbackMonitor(DeliveryMonitor):
                 self.flag("true-before-delivery", "callback(True) but the peer application never got the message (%s, %s)" % (kind, retry),
                           "tag %s: True at t=%.4f, peer has not been handed the %d-byte message" % (tag, w.vt.now, len(data)))
         else:
+            if retry == "none" and tag in self.ack_seen and tag in self.carried and self.ack_seen[tag] - self.carried[tag][2] < TIMEOUT - 1e-9:
+                self.flag("false-despite-ack", "callback(False) although the sender accepted a peer datagram acknowledging it before the timeout (%s, %s)" % (kind, retry),
+                          "tag %s: datagram seq %d sent at %.4f, acknowledged by an accepted datagram at %.4f, callback(False) at %.4f" % (
+                              tag, self.carried[tag][1], self.carried[tag][2], self.ack_seen[tag], w.vt.now))
             if w.vt.now - t0 < TIMEOUT - 1e-9:
                 self.flag("false-too-early", "callback(False) before the message timeout elapsed (%s, %s)" % (kind, retry),
                           "tag %s: False %.4f s after send (timeout %.1f)" % (tag, w.vt.now - t0, TIMEOUT))
@@ -54,6 +87,34 @@ class CallbackMonitor(DeliveryMonitor):
                           "%s assembled=%d acked=%d timeouts=%d pending=%d" % (name, st.assembled, st.acked, st.timeouts, len(c.pending_acks)))
 
 
+class AckReorder(Monitor):
+    """a deterministic reordering of ack-carrying datagrams: the first datagram the PEER emits at or after tick t1 (P1)
+    is held back by D ticks, everything the peer emits during the following G ticks is lost, so the first datagram to
+    get through afterwards (P2) overtakes P1 and its 32-datagram ack window no longer reaches what P1 acknowledges"""
+
+    def __init__(self, peer_src, direction, t1, G, D):
+        Monitor.__init__(self)
+        self.peer_src, self.direction, self.t1, self.G, self.D = peer_src, direction, t1, G, D
+        self.t0 = None
+        self.p1 = None
+        self.applied = False
+
+    def on_send(self, w, d):
+        if self.t0 is None or self.p1 is not None:
+            return
+        src = d.src if d.src == "s" else "c"
+        if src == self.peer_src and w.tickno - self.t0 >= self.t1:
+            self.p1 = d
+
+    def on_tick_end(self, w):
+        if self.p1 is not None and not self.applied:
+            self.applied = True
+            if self.p1 in w.net:
+                self.p1.release_tick += self.D
+                self.p1.note = "held back %d ticks" % self.D
+            w.start_blackout(self.direction, self.G)
+
+
 def scenario(params, ch):
     direction, msgs, blackout, longframe, order, latency = params
     # options ride on the order field: "cs|dt60" (60 Hz frames), "cs|ka0.5" (keep-alive = resend delay 0.5 s on both
@@ -63,7 +124,14 @@ def scenario(params, ch):
     mon = CallbackMonitor()
     dt = msgs[0][3] if msgs and msgs[0][0] == "stream" else (1.0 / 60 if "dt60" in opts else 1.0 / 64)
     ka = next((float(o[2:]) for o in opts if o.startswith("ka")), None)
-    w = World(order=order, latency=latency, chooser=ch, monitors=[mon], dt=dt,
+    monitors = [mon]
+    reorder = None
+    for o in opts:
+        if o.startswith("ackre"):
+            t1, G, D = (int(x) for x in o[5:].split(":"))
+            reorder = AckReorder("s" if direction == "c2s" else "c", "s2c" if direction == "c2s" else "c2s", t1, G, D)
+            monitors.append(reorder)
+    w = World(order=order, latency=latency, chooser=ch, monitors=monitors, dt=dt,
               server_cfg=({"setKeepAliveInterval": ka} if ka else None), client_cfg=({"setKeepAliveInterval": ka} if ka else None))
     sender = direction[0]
     try:
@@ -84,7 +152,9 @@ def scenario(params, ch):
             if blackout:
                 w.start_blackout(blackout[0], blackout[2])
                 blackout = None
-            w.fates = ["drop", "delay8"]
+            w.fates = ["drop", "delay8"] if reorder is None else []
+            if reorder is not None:
+                reorder.t0 = w.tickno
             for i in range(n):
                 tag = "m%d" % i
                 data = payload(i + 1, 24)
@@ -170,14 +240,15 @@ def params_list(tier):
     out = []
     if tier == "quick":
         msg_sets = [(("small", "none"),), (("small", "retry"),), (("small", "best"),), (("frag2", "none"),), (("frag2", "retry"),),
-                    (("small", "retry"), ("small", "none"))]
+                    (("small", "retry"), ("small", "none")), (("small", "none"), ("empty", "retry")), (("small", "retry"), ("empty", "none"))]
         cfgs = [("cs", 1)]
         blackouts = [None, ("ack", 0, 13), ("data", 0, 70)]
         longframes = [0]
     else:
         msg_sets = [(("small", "none"),), (("small", "retry"),), (("small", "best"),), (("frag2", "none"),), (("frag2", "retry"),),
                     (("frag2", "best"),), (("frag3", "retry"),), (("P", "retry"),), (("empty", "none"),),
-                    (("small", "retry"), ("small", "none")), (("frag2", "retry"), ("small", "retry"))]
+                    (("small", "retry"), ("small", "none")), (("frag2", "retry"), ("small", "retry")),
+                    (("small", "none"), ("empty", "retry")), (("small", "retry"), ("empty", "none")), (("empty", "best"), ("empty", "retry"), ("empty", "none"))]
         cfgs = [("cs", 1), ("sc", 0), ("sc", 1), ("cs", 0)]
         blackouts = [None, ("ack", 0, 13), ("data", 0, 70), ("ack", 2, 100), ("both", 1, 30)]
         longframes = [0, 0.25, 1.2]
@@ -229,6 +300,11 @@ def params_list_bound1(tier):
         if tier == "thorough":
             out.append((direction, (("frag40", "retry"),), None, 0, "cs", 1))
             out.append((direction, (("frag40", "best"),), None, 0, "sc", 0))
+        # ack-carrying datagrams reordered across a gap wider than the 32-datagram ack window (one datagram per tick at
+        # 1/50 s frames; message timeout = 50 ticks)
+        for t1, G, D in (((4, 34, 40), (6, 36, 41), (3, 33, 44)) if tier == "quick" else
+                         tuple((t1, G, G + x) for t1 in (2, 3, 4, 5, 6, 8) for G in (33, 34, 36, 40) for x in (3, 6, 10))):
+            out.append((direction, (("stream", 45, "none", 0.02),), None, 0, "cs|ackre%d:%d:%d" % (t1, G, D), 1))
         # acks held back for about one message timeout: every blackout length around it, so that for some length the
         # first ack arrives after the first fragment's timeout and before the last fragment's
         for L in (range(56, 72) if tier == "quick" else range(50, 80)):
